@@ -69,7 +69,7 @@ fn permute(l: &[Tx], perm: &[u16]) -> Vec<Tx> {
     if perm.is_empty() {
         return l.to_vec();
     }
-    let mut keyed: Vec<(u16, usize)> = (0..l.len()).map(|i| (perm[i % perm.len()].wrapping_add((i / perm.len()) as u16 * 7919), i)).collect();
+    let mut keyed: Vec<(u16, usize)> = (0..l.len()).map(|i| (perm[i % perm.len()].wrapping_add(((i / perm.len()) as u16).wrapping_mul(7919)), i)).collect();
     keyed.sort();
     keyed.into_iter().map(|(_, i)| l[i].clone()).collect()
 }
